@@ -12,7 +12,10 @@
 (*           crosses face f iff lo[f] <= k and k+1 <= hi[f];               *)
 (*   pole    per face, encloses a pole (its longitude span is the circle:  *)
 (*           outside the documented domain of the zonal helpers);          *)
-(*   eqedge  per face, has an edge lying on the equator.                   *)
+(*   eqedge  per face, has an edge lying on the equator;                   *)
+(*   nodepos, flat, corners: which critical latitudes are corner           *)
+(*           latitudes, which are shared by both ends of an edge of the    *)
+(*           face, which are corners of the face (signatures of findings). *)
 (* Meshes with a face outside C13's quantifier are reported and skipped.   *)
 (***************************************************************************)
 EXTENDS BoundsSpec, Json, IOUtils, TLC
@@ -44,7 +47,18 @@ Facts(m) ==
          lo |-> [ j \in 1..Len(F) |-> PosOf(crit, LatMinVal(F[j])) ],
          hi |-> [ j \in 1..Len(F) |-> PosOf(crit, LatMaxVal(F[j])) ],
          pole |-> [ j \in 1..Len(F) |-> EnclosesPole(F[j]) ],
-         eqedge |-> [ j \in 1..Len(F) |-> \E i \in 1..Len(F[j]) : EquatorArc(EdgeA(F[j], i), EdgeB(F[j], i)) ] ]
+         eqedge |-> [ j \in 1..Len(F) |-> \E i \in 1..Len(F[j]) : EquatorArc(EdgeA(F[j], i), EdgeB(F[j], i)) ],
+         \* positions that are the latitude of some corner (the others are interior extremes of edges only)
+         nodepos |-> UNION { { PosOf(crit, LatOfCorner(F[j][i])) : i \in 1..Len(F[j]) } : j \in 1..Len(F) },
+         \* per face: positions p such that an edge off the equator has BOTH ends at latitude crit[p] (the parallel
+         \* then meets that edge in its two end points only: the arc bulges poleward between them)
+         flat |-> [ j \in 1..Len(F) |-> { PosOf(crit, LatOfCorner(EdgeA(F[j], i))) :
+                        i \in { e \in 1..Len(F[j]) : LatCmp(EdgeA(F[j], e), EdgeB(F[j], e)) = 0 /\ EdgeA(F[j], e)[3] # 0 } } ],
+         \* per face: positions of the interior extremes of its bulging edges
+         tops |-> [ j \in 1..Len(F) |-> { PosOf(crit, LatOfTop(EdgeA(F[j], i), EdgeB(F[j], i))) : i \in { e \in 1..Len(F[j]) : BulgeN(F[j], e) } }
+                                        \cup { PosOf(crit, LatOfBottom(EdgeA(F[j], i), EdgeB(F[j], i))) : i \in { e \in 1..Len(F[j]) : BulgeS(F[j], e) } } ],
+         \* per face: positions of the latitudes of its corners
+         corners |-> [ j \in 1..Len(F) |-> { PosOf(crit, LatOfCorner(F[j][i])) : i \in 1..Len(F[j]) } ] ]
 
 \* sanity of the structure: positions are ordered, and a face's range contains every one of its corners
 Sane == k > 0 =>
